@@ -141,7 +141,7 @@ def cached_tlc_cases(name, module, cfg, defs_path, extra_files=(), timeout=1800,
     cache the printed cases keyed by the hash of everything it depends on"""
     ensure_dirs()
     files = [os.path.join(TLA, module + ".tla"), os.path.join(TLA, cfg), defs_path,
-             os.path.join(TLA, "CmdLine.tla")] + list(extra_files)
+             os.path.join(TLA, "CmdLine.tla"), os.path.join(TLA, "GroupLine.tla")] + list(extra_files)
     key = file_hash(*files, extra=json.dumps(env or {}, sort_keys=True))
     cases = os.path.join(CACHE, f"{name}-{key}.cases")
     meta = os.path.join(CACHE, f"{name}-{key}.json")
